@@ -37,6 +37,7 @@ def run(rep):
     R.level_representative(rep)
     R.glob_anchor(rep)
     R.level_coverage(rep)
+    R.per_restart_state(rep)
     c02.analyse(rep, owner_filter=lambda o: o.startswith(("GLOBAL:", "PARAM:its_available/")),
                 rule="no-inplace-on-shared", rels=["reading.py"], only=R.SCOPE["C18"])
     R.definite_assignment(rep, ["reading.py"], only=R.SCOPE["C18"])
